@@ -50,6 +50,15 @@ structure QCall where
   guarded : Bool
   deriving DecidableEq, Repr
 
+/-- a field selection through a pointer-typed field of a query request (round 5): `req.Pagination.Limit` panics when the optional
+`pagination` part is absent, unless a nil test of `req.Pagination` dominates it -/
+structure QDeref where
+  fn : Nat
+  expr : String
+  ptr : String
+  guarded : Bool
+  deriving DecidableEq, Repr
+
 /-- `b` is a callee of `a` -/
 def Graph.edge (g : Graph) (a b : Nat) : Prop := ∃ ts, (a, ts) ∈ g ∧ b ∈ ts
 
